@@ -23,6 +23,8 @@ impl MelCepstrum {
     pub fn postfilter_mcp(&mut self, beta: f64) {
         if beta > 0.0 && self.len() > 2 {
             let mut coefficients = self.mc2b();
+            #[cfg(feature = "verif-hooks")]
+            crate::verif::point("cep.postfilter");
             let e1 = coefficients.b2en(self.alpha);
 
             coefficients[1] -= beta * self.alpha * coefficients[2];
@@ -30,7 +32,11 @@ impl MelCepstrum {
                 coefficients[k] *= 1.0 + beta;
             }
 
+            #[cfg(feature = "verif-hooks")]
+            crate::verif::point("cep.postfilter.e1");
             let e2 = coefficients.b2en(self.alpha);
+            #[cfg(feature = "verif-hooks")]
+            crate::verif::point("cep.postfilter.e2");
             coefficients[0] += (e1 / e2).ln() / 2.0;
             *self = coefficients.b2mc(self.alpha);
         }
@@ -75,6 +81,8 @@ impl MelGeneralizedCepstrum {
         cepstrum[0] = self[0];
 
         for i in 1..=m2 {
+            #[cfg(feature = "verif-hooks")]
+            crate::verif::point("cep.gc2gc");
             let mut ss1 = 0.0;
             let mut ss2 = 0.0;
             for k in 1..self.len().min(i) {
@@ -138,6 +146,8 @@ pub trait CepstrumT: Buffer + Sized {
 
     fn mc2b(&self) -> Self::Coef {
         let mut coefficients = self.to_coef();
+        #[cfg(feature = "verif-hooks")]
+        crate::verif::point("cep.mc2b");
         if self.alpha() != 0.0 {
             let last = self.len() - 1;
             coefficients[last] = self[last];
@@ -157,6 +167,8 @@ pub trait CepstrumT: Buffer + Sized {
         let mut f = vec![0.0; cepstrum.len()];
 
         for i in 0..self.len() {
+            #[cfg(feature = "verif-hooks")]
+            crate::verif::point("cep.freqt");
             f[0] = cepstrum[0];
             cepstrum[0] = self[i] + alpha * cepstrum[0];
             if 1 <= m2 {
@@ -176,6 +188,8 @@ pub trait CepstrumT: Buffer + Sized {
         let mut ir = vec![0.0; len];
         ir[0] = self[0].exp();
         for n in 1..len {
+            #[cfg(feature = "verif-hooks")]
+            crate::verif::point("cep.c2ir");
             let mut d = 0.0;
             for k in 1..self.len().min(n + 1) {
                 d += k as f64 * self[k] * ir[n - k];
